@@ -695,7 +695,11 @@ func ens_mrRead_eof(r *messageReader, ret0 int, ret1 error) bool {
 		return true
 	}
 	c := r.c
-	return ret0 == 0 && (!oldspec_current(r) || c.readRemaining == 0 && c.readFinal)
+	if !oldspec_current(r) {
+		return ret0 == 0
+	}
+	// (the transport may deliver the last bytes of the final frame together with io.EOF: then the message is complete)
+	return c.readRemaining == 0 && c.readFinal
 }
 
 // bytes are handed out only while the frame in progress has bytes left, never more than it has left
